@@ -67,6 +67,22 @@ Section Hash.
   Definition admit_identity (known : list (list N)) (a : pubaddr) : res (list (list N)) :=
     do _ <- verify_address a; Ok (a_ip a :: known).
 
+  (* The store of address -> identity bindings (State.AddRouter / GetSession): an admitted
+     identity is bound to ITS OWN address; an existing binding is never overwritten.  A gossip
+     announcement presents a chain of hop identities, outermost first; parsing stops at the
+     first one that is rejected, the ones before it stay admitted. *)
+  Definition store := list (list N * pubaddr).
+  Definition lookup_binding (st : store) (ip : list N) : option pubaddr :=
+    match find (fun b => bytes_eqb (fst b) ip) st with Some b => Some (snd b) | None => None end.
+  Definition admit_binding (st : store) (a : pubaddr) : res store :=
+    do _ <- verify_address a;
+    Ok (match lookup_binding st (a_ip a) with Some _ => st | None => (a_ip a, a) :: st end).
+  Fixpoint admit_chain (st : store) (l : list pubaddr) : store * bool :=
+    match l with
+    | [] => (st, true)
+    | a :: t => match admit_binding st a with Ok st' => admit_chain st' t | _ => (st, false) end
+    end.
+
   (* ---------- generator: tryToGenerateAddress for one key pair ---------- *)
   Definition prefix := (list N * nat)%type.       (* 16 bytes, bit length *)
   Fixpoint bits_of_bytes (l : list N) : list bool :=
